@@ -1004,12 +1004,18 @@ func emptyForNilMaps(t *tree) *tree {
 // of a struct / pointer type below a map key) that both carry something? Pointers count even when they
 // point to a zero struct, an `any` when it is not nil.
 func (c *Case) concatOfInputTypeNeeded(parts []*tree) bool {
-	chunks := len(parts)
 	ran := false
 	for i := range c.Preds {
 		ran = ran || !c.skipped(i)
 	}
-	if !ran {
+	return concatNeeded(c.Tgt, parts, !ran)
+}
+
+// concatNeeded: parts are the per-source partial values of input type t that arrive as separate chunks;
+// noInputChunk: one more chunk without any value arrives (no data predecessor ran).
+func concatNeeded(t reflect.Type, parts []*tree, noInputChunk bool) bool {
+	chunks := len(parts)
+	if noInputChunk {
 		chunks++
 	}
 	nonEmpty := 0
@@ -1019,9 +1025,9 @@ func (c *Case) concatOfInputTypeNeeded(parts []*tree) bool {
 		}
 	}
 	switch {
-	case c.Tgt.Kind() == reflect.Ptr:
+	case t.Kind() == reflect.Ptr:
 		return chunks >= 2
-	case c.Tgt.Kind() == reflect.Struct, c.Tgt.Kind() == reflect.Interface:
+	case t.Kind() == reflect.Struct, t.Kind() == reflect.Interface:
 		return nonEmpty >= 2
 	}
 	return structMergeNeeded(parts)
